@@ -458,6 +458,13 @@ def contract_call(ex, c, fi, recv, pos, kw, st, fr):
         for p, v in zip(c.params, pos):
             args[p] = v
         args.update(kw)
+    for p_, tys_ in (c.args or {}).items():
+        # actual arguments take the static type the contract declares (e.g. a defaulted None for a dict parameter)
+        if p_ in args and tys_ != 'default' and isinstance(args[p_], V) and args[p_].kind == 'none':
+            try:
+                args[p_] = coerce(args[p_], sym.parse_ty(tys_))
+            except Unsupported:
+                pass
     ex.notes.add(f'contract of {c.qual} used at a call site (proved separately: {", ".join(c.props) or "assumed"})')
     cs = st.fork()
     cs.loc = dict(args)
@@ -497,8 +504,16 @@ def contract_call(ex, c, fi, recv, pos, kw, st, fr):
         es = post.fork()
         ev_state = _spec_state(es, args, old)
         if cond_text is not None:
-            es.assume(ex.specs.eval_bool(ex, cond_text, old, cfr))
+            es.assume(ex.specs.eval_bool(ex, cond_text[8:] if cond_text.startswith('only_if:') else cond_text, old, cfr))
         for nm, text in clauses:
+            if text.startswith('@frame:'):
+                # "nothing changes (except ...)" on this exceptional outcome: the pre-call heap is restored
+                # (exceptions listed after @frame: are not supported at call sites and stay havocked)
+                if not text[7:].strip():
+                    keep_tr = {k_: v_ for k_, v_ in es.heap.maps.items() if k_.startswith('$')}
+                    es.heap.maps = dict(old.heap.maps)
+                    es.heap.maps.update({k_: v_ for k_, v_ in keep_tr.items() if k_.startswith('$tr') and k_ in old.heap.maps})
+                continue
             es.assume(ex.specs.eval_bool(ex, text, ev_state, cfr))
         es.loc = saved_loc
         if ex.feasible(es):
@@ -507,7 +522,7 @@ def contract_call(ex, c, fi, recv, pos, kw, st, fr):
     # normal outcome
     ns = post
     for exc, cond_text, clauses in c.raises:
-        if cond_text is not None:
+        if cond_text is not None and not cond_text.startswith('only_if:'):
             ns.assume(z3.Not(ex.specs.eval_bool(ex, cond_text, old, cfr)))
     res = vnone()
     if c.result is not None:
@@ -714,6 +729,10 @@ def call_value(ex, fv, pos, kw, st, fr, e):
         trace_append(ex, s1, 0, fv.t if fv.kind == 'clo' else None, None, refs, reals, bools)
         rely_havoc(ex, s1, fr, 'callback')
         res = V(T_DYN)
+        # the truth value of what the callable returned is recorded next to the call (trace_resb)
+        res.t = fresh('dynb', B)
+        n_ = s1.heap.maps['$trlen'] - 1
+        s1.heap.set('$tr.resb', z3.Store(s1.heap.get('$tr.resb', I, B), n_, res.t))
         ex.notes.add('A4: user callbacks / unknown callables act only through the public API (rely)')
         out.append((res, s1))
     return out
